@@ -10,6 +10,7 @@ import (
 	"os"
 	"sync"
 	"sync/atomic"
+	"syscall"
 	"time"
 )
 
@@ -24,13 +25,42 @@ var (
 	portHi   int
 )
 
+// initPorts claims a block of ports that no other harness process on this machine uses at the same time (exclusive
+// advisory lock on a file per block, held for the life of the process): checks that run concurrently - several
+// shards, a background thorough run, a scratch-tree run - can then never dial or rebind each other's ports.
 func initPorts() {
-	shard, _ := Shard()
-	slot := (shard*3 + os.Getpid()) % 16
-	portLo = 20000 + slot*750
-	portHi = portLo + 750
-	portNext = portLo + (os.Getpid()*37)%700
+	const blockSize = 250
+	const blocks = 48 // 20000..31999
+	dir := os.Getenv("VERIF_DIR")
+	if dir == "" {
+		dir = os.TempDir()
+	}
+	dir = dir + "/work/portlocks"
+	_ = os.MkdirAll(dir, 0o755)
+	start := os.Getpid() % blocks
+	for i := 0; i < blocks; i++ {
+		b := (start + i) % blocks
+		f, err := os.OpenFile(fmt.Sprintf("%s/block-%02d.lock", dir, b), os.O_CREATE|os.O_RDWR, 0o644)
+		if err != nil {
+			continue
+		}
+		if err := syscall.Flock(int(f.Fd()), syscall.LOCK_EX|syscall.LOCK_NB); err != nil {
+			f.Close()
+			continue
+		}
+		portLockFile = f // keep it open: the lock lives as long as the process
+		portLo = 20000 + b*blockSize
+		portHi = portLo + blockSize
+		portNext = portLo
+		return
+	}
+	// every block is taken: fall back to a pid-derived block (bind tests still apply)
+	portLo = 20000 + (os.Getpid()%blocks)*blockSize
+	portHi = portLo + blockSize
+	portNext = portLo
 }
+
+var portLockFile *os.File
 
 // Port returns a loop-back port on which both TCP and UDP could be bound a moment ago.
 func Port() int {
